@@ -46,13 +46,21 @@ def make_system(rng, kind, nrb, nel, nrf, mform, wh=(0.05, 2.5), h=0.01, zetas=N
         B[np.ix_(el, el)] += off * scale
     if kind == "coupled" and nel > 1:
         # congruence transform of the elastic block: full m, b, k with the same physics
-        T = np.eye(nel) + 0.3 * rng.standard_normal((nel, nel))
+        # moderate condition number: the sensitivity of the answer to one ulp of the coupled matrices grows like cond(T)^2, so a
+        # nearly singular draw would measure conditioning, not the solver (same rule as drive_C01)
+        for _ in range(50):
+            T = np.eye(nel) + 0.3 * rng.standard_normal((nel, nel))
+            if np.linalg.cond(T) <= 30:
+                break
         ix = np.ix_(el, el)
         M[ix] = T.T @ M[ix] @ T
         B[ix] = T.T @ B[ix] @ T
         K[ix] = T.T @ K[ix] @ T
         if nrf > 1:
-            Tr = np.eye(nrf) + 0.2 * rng.standard_normal((nrf, nrf))
+            for _ in range(50):
+                Tr = np.eye(nrf) + 0.2 * rng.standard_normal((nrf, nrf))
+                if np.linalg.cond(Tr) <= 30:
+                    break
             ixr = np.ix_(rf, rf)
             K[ixr] = Tr.T @ K[ixr] @ Tr
             M[ixr] = Tr.T @ M[ixr] @ Tr
